@@ -126,6 +126,50 @@ theorem cOff_lt {e : List Nat} {n : Nat} (h : Part e n) (a : Nat) (ha : a < e.le
       simp [List.getD_eq_getElem?_getD, show a - 1 < e.length by omega]
     omega
 
+/- Tie the generated byte-offset search loop of `Chars` to the canonical `chBody` through a VIEW of its state: which
+component is the rune counter / `byteStart` / `byteEnd`, and the offset `d` of the counter (0: incremented at the top
+of the body, 1: at the bottom).  The code after the loop reads `byteStart` and `byteEnd` only.  A wrong view is
+rejected by the first two side goals (code after the loop, initial state) before the body is looked at. -/
+set_option hygiene false in
+local macro "ch_view " re:term:max c:term:max bs:term:max be:term:max d:term:max " then " fin:tacticSeq : tactic => `(tactic| (
+  refine Eq.trans (finRel_bind (fun s : Int × Int × Int => ($bs s, $be s)) (fun s : Int × Int × Int => (s.2.1, s.2.2))
+    (K' := fun t => Editor.subEd cx ed t.1.2.1 (if t.1.2.2 = -1 then ((byteLen cx ed.text : Nat) : Int) else t.1.2.2))
+    (forRangeCtlM_sim (fun s : Int × Int × Int => ($c s - $d, $bs s, $be s)) _ _ _ (chBody (((clusterSpan E stN).1 : Nat) : Int) $re ((byteLen cx ed.text : Nat) : Int)) (fun _ => rfl) _ _ ?step)
+    ?hK) ?rest
+  case hK =>
+    intro r r' o hobs
+    obtain ⟨h1, h2⟩ := Prod.mk.inj hobs
+    (simp only [← h1, ← h2]) <;> first | rfl | ((repeat' split) <;> first | rfl | omega)
+  case rest =>
+    show Go.forRangeCtlAux (chBody _ _ _) 0 _ (-1, -1, -1) >>= _ = _
+    (rw [hrun])
+    ($fin)
+  case step =>
+    intro j byteIdx s hj
+    simp only [chBody]
+    (repeat' split) <;>
+      first
+        | omega
+        | ((simp only [ctlRel_next, ctlRel_brk, ctlRel_ret, ctlRel_throw, Prod.mk.injEq]) <;>
+            (repeat' apply And.intro) <;> first | rfl | trivial | omega)))
+
+/- all views of a state of three integers -/
+set_option hygiene false in
+local macro "ch_views " re:term:max " then " fin:tacticSeq : tactic => `(tactic|
+  first
+    | ch_view $re (·.1) (·.2.1) (·.2.2) 0 then $fin
+    | ch_view $re (·.1) (·.2.1) (·.2.2) 1 then $fin
+    | ch_view $re (·.1) (·.2.2) (·.2.1) 0 then $fin
+    | ch_view $re (·.1) (·.2.2) (·.2.1) 1 then $fin
+    | ch_view $re (·.2.1) (·.1) (·.2.2) 0 then $fin
+    | ch_view $re (·.2.1) (·.1) (·.2.2) 1 then $fin
+    | ch_view $re (·.2.1) (·.2.2) (·.1) 0 then $fin
+    | ch_view $re (·.2.1) (·.2.2) (·.1) 1 then $fin
+    | ch_view $re (·.2.2) (·.1) (·.2.1) 0 then $fin
+    | ch_view $re (·.2.2) (·.1) (·.2.1) 1 then $fin
+    | ch_view $re (·.2.2) (·.2.1) (·.1) 0 then $fin
+    | ch_view $re (·.2.2) (·.2.1) (·.1) 1 then $fin)
+
 theorem editorChars_regenerated (h : Gen.Code.editorChars_extracted = true) (hwf : cx.WF) (ed : Editor α) (s e : Int) :
     Gen.Code.editorChars cx ed s e = ed.chars cx s e := by
   first
@@ -179,11 +223,8 @@ theorem editorChars_regenerated (h : Gen.Code.editorChars_extracted = true) (hwf
            simp only [Int.natCast_zero, Int.zero_sub] at key
            have hrun := key
            rw [← hoffs] at hrun
-           unfold chBody at hrun
-           unfold Go.forRangeCtlM
-           rw [hrun]
            have hne : ¬ (((byteOff cx ed.text (clusterSpan E enN).1 : Nat) : Int) = -1) := by omega
-           simp only [pure_bind, hne, if_false]
+           ch_views (((clusterSpan E enN).1 : Nat) : Int) then simp only [pure_bind, hne, if_false]
          · have hen2 : enN = E.length := by omega
            simp only [hen1, if_false, pure_bind]
            have hL : (((byteLen cx ed.text : Nat) : Int) ≥ ((byteLen cx ed.text : Nat) : Int)) := Int.le_refl _
@@ -193,10 +234,7 @@ theorem editorChars_regenerated (h : Gen.Code.editorChars_extracted = true) (hwf
            simp only [Int.natCast_zero, Int.zero_sub] at key
            have hrun := key
            rw [← hoffs] at hrun
-           unfold chBody at hrun
-           unfold Go.forRangeCtlM
-           rw [hrun]
-           simp only [pure_bind, if_true])
+           ch_views ((byteLen cx ed.text : Nat) : Int) then simp only [pure_bind, if_true])
 
 theorem editorCharsFrom_regenerated (h : Gen.Code.editorCharsFrom_extracted = true) (hwf : cx.WF) (ed : Editor α) (start : Int) :
     Gen.Code.editorCharsFrom cx ed start = ed.charsFrom cx start := by
